@@ -8,7 +8,7 @@
 From Coq Require Import Sorting.Sorted ZArith.
 From Stam Require Import Base.Tac Model.Offset Model.Store Model.StoreObs Spec.StoreSpec
      Proofs.StoreScan Proofs.StoreInv Proofs.StoreDataDef Proofs.StoreRemove Proofs.StoreData Proofs.StoreStable
-     Model.Compress Proofs.Compress Proofs.StoreSel Model.SubOrder Proofs.SubOrder Model.SubOrderArms Gen.SubOrderTable Proofs.AgreeSubOrder Model.Forward Proofs.Forward.
+     Model.Compress Proofs.Compress Proofs.StoreSel Model.SubOrder Proofs.SubOrder Model.SubOrderArms Gen.SubOrderTable Proofs.AgreeSubOrder Model.Forward Proofs.Forward Model.Adaptors Proofs.Adaptors.
 From Stam Require Model.Validate Proofs.ValidateProtect.
 
 (* every reverse index of every reachable store is exact *)
@@ -169,3 +169,28 @@ Example C01_nonvacuous :
   m_ts_anns s 0 0 = [2] /\ s_ts_anns s 0 0 = [2] /\ m_data_anns s 0 0 = [2] /\ m_data_meta s 0 0 = [3]
   /\ m_res_meta s 0 = [2] /\ get_ann s 0 = None /\ get_ann s 1 = None.
 Proof. cbv zeta. repeat split; reflexivity. Qed.
+
+(* The iterator adaptors of the API (an iterator of annotations / data / keys / resources mapped to
+   the annotations, resources, ... of its items): the answer is the union of the per-item answers,
+   chronological and duplicate-free, for any selection of items ... *)
+Theorem C01_adaptor_is_exact_union : forall f l y,
+  (In y (un f l) <-> exists it, In it l /\ In y (f it)) /\ StronglySorted lt (un f l).
+Proof. intros f l y. split; [apply un_In|apply un_sorted]. Qed.
+
+(* ... and in every reachable store what the code computes from the reverse indices and the
+   recursive walk is what the scans and the closure say *)
+Theorem C01_adaptors_index_is_scan : forall ops even,
+  let s := run ops in
+  ad_annotations s true (live_anns s even) = ad_annotations s false (live_anns s even)
+  /\ ad_resources s true (live_anns s even) = ad_resources s false (live_anns s even)
+  /\ ad_resources_meta s true (live_anns s even) = ad_resources_meta s false (live_anns s even)
+  /\ res_annotations s true = res_annotations s false
+  /\ res_annotations_meta s true = res_annotations_meta s false.
+Proof. exact adaptors_index_is_scan. Qed.
+
+Theorem C01_dataset_adaptors_index_is_scan : forall ops d ds,
+  let s := run ops in
+  ds_data_annotations s true d ds = ds_data_annotations s false d ds
+  /\ ds_data_annotations_meta s true d ds = ds_data_annotations_meta s false d ds
+  /\ ds_keys_annotations_meta s true d ds = ds_keys_annotations_meta s false d ds.
+Proof. exact dataset_adaptors_index_is_scan. Qed.
